@@ -27,13 +27,14 @@ KNOWN_SIG = "page-created-under-prefix-attached-during-walk"
 KNOWN_SIG2 = "link-end-changed-webentity-during-walk"
 P1, P2, Pn = Ab + b"p:1|", Ab + b"p:2|", A + b"p:n|"
 LONG = A + L.long_stem(149)
+PT = Ab + b"p:t|"  # a page below Ab that a path-2 rule on Ab turns into a webentity of its own
 WE1 = [A, S, Aw, Sw]
 
 
 def base_history():
     # R2 ("linked") plus a multi-block stem page that carries links: exposes any reliance on
     # the file cursor across yield points (file back-end)
-    return al.R2 + (al.page(LONG, True), al.links((LONG, Ab), (Az, LONG)))
+    return al.R2 + (al.page(LONG, True), al.links((LONG, Ab), (Az, LONG)), al.page(PT), al.links((Ab, PT)))
 
 
 # ------------------------------------------------------------------------------- observations
@@ -50,6 +51,18 @@ class PMap(dict):
     handed to the query no longer delimit the webentity)."""
 
     mult = None
+
+
+def plinks_map_sw(t, wid, prefixes, inb, inte, outb):
+    m = PMap()
+    m.mult = collections.Counter()
+    try:
+        for a, b, w in t.get_webentity_pagelinks(wid, prefixes, include_inbound=inb, include_internal=inte, include_outbound=outb):
+            m[(a, b)] = w
+            m.mult[(a, b)] += 1
+    except Exception:
+        pass
+    return m
 
 
 def plinks_map(t, wid, prefixes):
@@ -138,7 +151,11 @@ def judge_pages(wid, prefixes):
     return judge
 
 
-def judge_plinks(wid, prefixes):
+def judge_plinks(wid, prefixes, walked_end=None):
+    """walked_end = 0 when every listed link comes from the walk of its SOURCE page (no inbound
+    switch): the known finding (walk continues below a prefix attached during the walk) then
+    requires that very page to lie below the new prefix, not the other end."""
+
     def judge(e, qi):
         ans = e.res[qi]
         ms = e.moments[qi]
@@ -163,7 +180,7 @@ def judge_plinks(wid, prefixes):
             out.append(("item-missing", "link %s -> %s qualified for webentity %r at every step boundary of the query but is not in its answer" % (L.show(k[0]), L.show(k[1]), wid), kn))
         for k in sorted(set(got) - keys_any):
             kn = None
-            for end in k:
+            for end in (k if walked_end is None else (k[walked_end],)):
                 if classify_ghost(end, prefixes, e.track_log[qi], e.t):
                     kn = KNOWN_SIG
             out.append(("item-never-qualified", "link %s -> %s is in the answer of the page-link query on webentity %r although it qualified at no step boundary" % (L.show(k[0]), L.show(k[1]), wid), kn))
@@ -267,6 +284,7 @@ def menu():
     m["crawlA"] = Participant("crawlA", lambda t: t.index_batch_crawl_iter({Ab: [P1, Az], Az: [Ab, LONG]}, 1))
     m["crawlB"] = Participant("crawlB", lambda t: t.index_batch_crawl_iter({Az: [Ab, Pn], P1: [Az], LONG: [P2]}, 1))
     m["crawlC"] = Participant("crawlC", lambda t: t.index_batch_crawl_iter({Axy: [Ax + b"p:k|", Ab], Sx: [Axy]}, 1))
+    m["crawlE"] = Participant("crawlE", lambda t: t.index_batch_crawl_iter({Az: [PT], Axy: [PT, Az]}, 1))
     m["crawlD"] = Participant("crawlD", lambda t: t.index_batch_crawl_iter({Ab: [P1, Az], Az: [P2], P2: [Ab + b"p:3|"]}, 1))
     # sizes: one page cited by 600 sources in one batch, while another batch touches that page
     m["crawlBig"] = Participant("crawlBig", lambda t: t.index_batch_crawl_iter({Az + b"p:%03d|" % i: [Ab] for i in range(600)}, 1))
@@ -284,6 +302,12 @@ def menu():
     m["pages1"] = Query("pages1", lambda t: t.get_webentity_pages_iter(1, WE1), lambda t: pages_set(t, 1, WE1), judge_pages(1, WE1))
     m["pages2"] = Query("pages2", lambda t: t.get_webentity_crawled_pages_iter(2, [Ax]), lambda t: frozenset(d["lru"] for d in t.get_webentity_crawled_pages(2, [Ax])), judge_pages(2, [Ax]))
     m["plinks1"] = Query("plinks1", lambda t: t.get_webentity_pagelinks_iter(1, WE1, include_inbound=True, include_internal=True, include_outbound=True), lambda t: plinks_map(t, 1, WE1), judge_plinks(1, WE1))
+    m["plinks1i"] = Query(
+        "plinks1i",
+        lambda t: t.get_webentity_pagelinks_iter(1, WE1, include_inbound=False, include_internal=True, include_outbound=False),
+        lambda t: plinks_map_sw(t, 1, WE1, False, True, False),
+        judge_plinks(1, WE1, walked_end=0),
+    )
     m["plinks2"] = Query("plinks2", lambda t: t.get_webentity_pagelinks_iter(2, [Ax], include_inbound=True, include_internal=True, include_outbound=True), lambda t: plinks_map(t, 2, [Ax]), judge_plinks(2, [Ax]))
     m["net"] = Query("net", lambda t: t.get_webentities_links_iter(out=True, include_auto=True), lambda t: network(t, True), None)
     m["netin"] = Query("netin", lambda t: t.get_webentities_links_iter(out=False, include_auto=True), lambda t: network(t, False), None)
@@ -369,6 +393,11 @@ def combos(tier):
         (("crawlA", "rule", "net"), 2, 3),
         (("crawlD", "rule", "pages1"), 2, 3),
         (("crawlD", "rule", "plinks1"), 2, 3),
+        (("crawlD", "rule", "plinks1i"), 2, 3),
+        (("crawlA", "rule", "plinks1i"), 2, 3),
+        (("crawlB", "rule", "plinks1i"), 2, 3),
+        (("crawlE", "rule2", "plinks1i"), 3, 4),
+        (("crawlE", "rule2", "plinks1"), 2, 3),
         (("crawlD", "rule", "most1"), 2, 3),
         (("crawlA", "linksX", "plinks1"), 2, 3),
         (("crawlA", "createX", "pages1"), 2, 4),
